@@ -108,6 +108,62 @@ def check_pool_mutations(ctx, prog, pool, r, fam_props):
                         PROPS_POOL + ['C02'] + fam_props, span_line(c, f.line))
 
 
+def select_removal(prog, tree, r, tree_fns):
+    """release accounting through helpers: T0 = functions that release exactly one slot on every path; a function that
+    releases "raw" (directly, or through a helper that is raw and not exact) must be exact, or be used only by functions
+    that are; wrappers W pass their own parameter to the release and write nothing; the removal transaction is the
+    innermost exact function that is not a wrapper"""
+    key = ('selrem', tree)
+    if key in prog._summ_cache:
+        return prog._summ_cache[key]
+    S = {f.path: release_summary(prog, f, r, tree_fns) for f in tree_fns}
+    T0 = {f.path for f in tree_fns if S[f.path] == {1} and f.trait_method() != 'clear'}
+    by_path = {f.path: f for f in tree_fns}
+
+    def releasing_callees(f):
+        out = []
+        for c in f.body.calls:
+            tgt = prog.resolve(c)
+            if tgt is None:
+                continue
+            if tgt in r['release']:
+                out.append((c, tgt, True))
+            elif tgt.path in S and S[tgt.path] != {0} and tgt.trait_method() != 'clear' and tgt.path != f.path:
+                out.append((c, tgt, False))
+        return out
+    # raw = releases directly or through a helper that is raw and not exact (least fixpoint)
+    raw = {f.path for f in tree_fns if f.trait_method() != 'clear' and any(d for _, _, d in releasing_callees(f))}
+    changed = True
+    while changed:
+        changed = False
+        for f in tree_fns:
+            if f.path in raw or f.trait_method() == 'clear':
+                continue
+            if any((not d) and t.path in raw and t.path not in T0 for _, t, d in releasing_callees(f)):
+                raw.add(f.path)
+                changed = True
+    bad = []
+    for pth in sorted(raw - T0):
+        f = by_path[pth]
+        callers = [c for _, c in prog.callers(f) if c.self_adt == tree and not c.is_closure]
+        if f.trait_item or not callers:
+            bad.append(f)
+    # pass-through wrappers: exact, release their own parameter, write nothing else
+    from summaries import node_writes
+    W = {pth for pth in T0 if released_param(prog, by_path[pth], r, T0) is not None and not node_writes(prog, by_path[pth])
+         and not any(strip(st.root).kind == 'param' and st.fields() == ('root',) for st in by_path[pth].body.stores)}
+    # the removal transaction: the innermost exact function that is not a wrapper
+    removal = []
+    for pth in sorted(T0 - W):
+        f = by_path[pth]
+        if all(d or t.path in W for _, t, d in releasing_callees(f)):
+            removal.append(f)
+
+    res = {'S': S, 'T0': T0, 'W': W, 'bad': bad, 'removal': removal}
+    prog._summ_cache[key] = res
+    return res
+
+
 def run(ctx):
     prog = ctx.prog
     roles = pool_roles(prog)
@@ -123,14 +179,16 @@ def run(ctx):
         releasers = [f for f in tree_fns if calls_to(prog, f, r['release'])]
         allocators = [f for f in tree_fns if calls_to(prog, f, r['alloc'])]
         clear_fn = [f for f in tree_fns if f.trait_method() == 'clear']
-        removal = [f for f in releasers if f.trait_method() != 'clear']
         # ---- who-may-call ------------------------------------------------------------------
-        if len(removal) != 1:
+        sel = select_removal(prog, tree, r, tree_fns)
+        S, T0, W, bad, removal = sel['S'], sel['T0'], sel['W'], sel['bad'], sel['removal']
+        if bad or len(removal) != 1:
             ctx.add('POOL', None, 'who-releases(%s)' % tree, 'violation',
-                    'slots of %s are released by %s; expected exactly one removal transaction besides clear' % (tree, sorted(f.name for f in releasers)), PROPS_POOL)
+                    ('; '.join('%s releases %s slots depending on the path (through %s); every removal must release exactly one' % (f.name, sorted(S[f.path]), sorted(x.name for x in releasers)) for f in bad[:2])) if bad else
+                    'slots of %s are released by %s; expected exactly one removal transaction (a function that releases exactly one slot on every path) besides clear, found %s' % (tree, sorted(f.name for f in releasers), sorted(f.name for f in removal)), PROPS_POOL)
             continue
         rem = removal[0]
-        ctx.add('POOL', rem, 'who-releases', 'ok', 'only the removal transaction and clear release slots (%s)' % sorted(f.name for f in releasers), PROPS_POOL, rem.line)
+        ctx.add('POOL', rem, 'who-releases', 'ok', 'only the removal transaction (%s, exactly one slot on every path) and clear release slots (release calls in %s)' % (rem.name, sorted(f.name for f in releasers)), PROPS_POOL, rem.line)
         # allocation: only new and the linking inserts
         for f in allocators:
             check_alloc(ctx, prog, tree, f, r, tree_fns)
@@ -153,7 +211,7 @@ def run(ctx):
         check_pool_mutations(ctx, prog, pool, r, fam_props)
         # ---- release pairing in the removal -------------------------------------------------
         n0 = len(ctx.instances)
-        check_release(ctx, prog, rem, r)
+        check_release(ctx, prog, rem, r, W)
         for inst in ctx.instances[n0:]:
             inst.props |= set(fam_props)
         # ---- growth -----------------------------------------------------------------------------
@@ -170,6 +228,45 @@ def run(ctx):
     run_provenance(ctx)
 
 
+def set_sum(a, b2):
+    return {min(2, x + y) for x in a for y in b2}
+
+
+def release_summary(prog, f, r, tree_fns, _stack=None):
+    """set of possible numbers of slots (0, 1, 2 = two or more) released on the paths through f, through helpers of
+    the same tree"""
+    key = ('relsum', f.path)
+    if key in prog._summ_cache:
+        return prog._summ_cache[key]
+    _stack = _stack or set()
+    if f.path in _stack:
+        return {0}
+    _stack = _stack | {f.path}
+    b = f.body
+    per_block = {}
+    paths = {x.path for x in tree_fns}
+    for c in b.calls:
+        tgt = prog.resolve(c)
+        contrib = None
+        if tgt is not None and tgt in r['release']:
+            contrib = {1}
+        elif tgt is not None and tgt.path in paths and not tgt.is_closure and tgt.trait_method() != 'clear' and tgt.path not in prog.accessors:
+            cs = release_summary(prog, tgt, r, tree_fns, _stack)
+            if cs != {0}:
+                contrib = cs
+        if contrib is not None:
+            if in_loop(b, c.point[0]) and contrib != {0}:
+                contrib = {0, 1, 2}
+            per_block[c.point[0]] = set_sum(per_block.get(c.point[0], {0}), contrib)
+    counts = release_counts(b, per_block)
+    res = set()
+    for ret in b.cfg.returns:
+        res |= counts.get(ret, set())
+    res = res or {0}
+    prog._summ_cache[key] = res
+    return res
+
+
 def release_counts(b, rel_blocks):
     """forward dataflow: the set of possible numbers of releases (capped at 2) performed on the paths from the entry
     to each block's end"""
@@ -179,7 +276,9 @@ def release_counts(b, rel_blocks):
     inn = {0: {0}}
     while work:
         x = work.pop()
-        cur = {min(2, n + rel_blocks.get(x, 0)) for n in inn.get(x, set())}
+        rb = rel_blocks.get(x, 0)
+        rb = rb if isinstance(rb, set) else {rb}
+        cur = set_sum(inn.get(x, set()), rb)
         if out.get(x) == cur:
             continue
         out[x] = cur
@@ -193,14 +292,57 @@ def release_counts(b, rel_blocks):
     return out
 
 
-def check_release(ctx, prog, rem, r):
+def released_param(prog, h, r, T0, _depth=0):
+    T0 = T0 or ()
+    """for an exact helper h: index k of the parameter it releases (directly or through exact helpers), else None"""
+    if _depth > 4:
+        return None
+    ks = set()
+    for c in h.body.calls:
+        tgt = prog.resolve(c)
+        if tgt is None:
+            continue
+        if tgt in r['release']:
+            a = strip(c.args[1])
+        elif tgt.path in T0:
+            k2 = released_param(prog, tgt, r, T0, _depth + 1)
+            if k2 is None or k2 - 1 >= len(c.args):
+                return None
+            a = strip(c.args[k2 - 1])
+        else:
+            continue
+        if a.kind != 'param':
+            return None
+        ks.add(a.args[0])
+    return ks.pop() if len(ks) == 1 else None
+
+
+class RelSite:
+    """a release as seen in the removal: the call (to the pool or to an exact helper) and the value released"""
+    def __init__(self, call, arg):
+        self.call, self.arg, self.point, self.span = call, arg, call.point, call.span
+
+
+def check_release(ctx, prog, rem, r, T0=frozenset()):
     b = rem.body
-    rel = calls_to(prog, rem, r['release'])
+    rel = []
+    for c in b.calls:
+        tgt = prog.resolve(c)
+        if tgt is None:
+            continue
+        if tgt in r['release']:
+            rel.append(RelSite(c, c.args[1]))
+        elif tgt.path in T0 and tgt.path != rem.path:
+            k = released_param(prog, tgt, r, T0)
+            if k is None or k - 1 >= len(c.args):
+                ctx.add('POOL', rem, 'release-once', 'violation', 'the removal releases through %s, which does not release one of its own parameters: the released slot cannot be related to the removed index' % tgt.name, PROPS_POOL, span_line(c, rem.line))
+                return
+            rel.append(RelSite(c, c.args[k - 1]))
     line = rem.line
     if not rel:
         ctx.add('POOL', rem, 'release-once', 'violation', 'the removal contains no release call site; exactly one release is expected on every path (one slot leaves the tree per removal)', PROPS_POOL, line)
         return
-    line = span_line(rel[0], rem.line)
+    line = span_line(rel[0].call, rem.line)
     problems = []
     per_block = {}
     for c in rel:
@@ -220,11 +362,11 @@ def check_release(ctx, prog, rem, r):
         blk = c.point[0]
         # it is the last act: no other call and no store after it
         after = b.cfg.reachable_from(blk) - {blk}
-        later = [x for x in b.calls if x is not c and x not in rel and (x.point[0] in after or (x.point[0] == blk and x.point > c.point))]
+        later = [x for x in b.calls if x is not c.call and x not in [q.call for q in rel] and (x.point[0] in after or (x.point[0] == blk and x.point > c.point))]
         if later:
             problems.append('state is still changed after the slot was released (%s)' % later[0].callee_name())
         # the released slot: the parameter, or the successor found below the parameter on the two-children path
-        arg = strip(c.args[1])
+        arg = strip(c.arg)
         vals = arg.args if arg.kind == 'phi' else [arg]
         kinds = []
         for v in vals:
